@@ -55,12 +55,12 @@ func runC13(p *Prog, r *Report) {
 	}
 	// R4: import the builder and worker contracts
 	sub := NewReport("C13", r.Tier)
-	for _, fn := range p.FuncsCalling(func(c *ssa.CallCommon) bool { return IsCallTo(c, fnFill) }) {
+	for _, fn := range p.LoopFuncsCalling(func(c *ssa.CallCommon) bool { return IsCallTo(c, fnFill) }) {
 		if len(LoopHeaders(fn)) == 1 {
 			checkBuilder(p, sub, fn)
 		}
 	}
-	for _, fn := range p.FuncsCalling(func(c *ssa.CallCommon) bool { return IsCallTo(c, fnScannerScan) }) {
+	for _, fn := range p.LoopFuncsCalling(func(c *ssa.CallCommon) bool { return IsCallTo(c, fnScannerScan) }) {
 		if len(LoopHeaders(fn)) > 0 {
 			checkWorker(p, sub, fn)
 		}
@@ -149,7 +149,7 @@ func checkFileGenerator(p *Prog, r *Report, fn *ssa.Function) {
 		return
 	}
 	L := heads[0]
-	fp := Paths(fn)
+	fp := PathsInl(fn)
 	i := 0
 	for _, s := range fp.From(L) {
 		if s.IsSelectPanicTail() {
@@ -374,7 +374,7 @@ func checkStaleDecodeTarget(p *Prog, r *Report, fn *ssa.Function) {
 				}
 			}
 			okAll, detail := true, ""
-			for _, s := range Paths(fn).From(L) {
+			for _, s := range PathsInl(fn).From(L) {
 				if !s.Has(c) {
 					continue
 				}
@@ -410,7 +410,7 @@ func checkDecorator(p *Prog, r *Report, parent, g *ssa.Function) {
 		return
 	}
 	L := heads[0]
-	fp := Paths(g)
+	fp := PathsInl(g)
 	pos := p.Pos(g.Pos())
 	reqT := "*" + modPath + "/pkg/scan.Request"
 	i := 0
